@@ -64,9 +64,16 @@ def run(ctx):
         res.check(okw, "R20.1", "indexed-write", "%s in %s" % (sp_str(s["sp"]), lw.q), "%s = %s" % (dst, val),
                   "word list slot overwritten with %s (only its own trim_end() is content-preserving)" % val)
     # carryover writes
-    cw = writes_field(lw, "carryover")
+    cw = []
+    for i, s in writes_field(lw, "carryover"):
+        # `self.carryover = match .. { .. }`: one write per arm value
+        lv = value_leaves(lw, s["rv"]["op"]) if s["rv"]["k"] == "use" else None
+        cw.extend([(bb_, dict(sp=s["sp"], rv=rv_)) for bb_, rv_ in lv if isinstance(rv_, dict)] if lv else [(i, s)])
     res.floor("R20.1", "carryover writes in wrap", len(cw), 2)
     for i, s in cw:
+        if s["rv"]["k"] == "agg" and s["rv"].get("variant") == "None" and has_bool(lw, i, "T", r"^is_none\(self\.carryover\)$"):
+            res.ok("R20.1", "carryover|none-when-none", "%s in %s" % (sp_str(s["sp"]), lw.q), "carryover = None where it is None already")
+            continue
         val = expr(lw, s["rv"]["op"]) if s["rv"]["k"] == "use" else expr(lw, s["rv"]["ops"][0]) if s["rv"]["k"] == "agg" and s["rv"]["ops"] else "?"
         if s["rv"]["k"] == "agg":
             val = "Some(%s)" % val
